@@ -563,6 +563,12 @@ func c20box(r *core.Run, idx int) {
 				kid = &boxNode{orient: orientOf()}
 				kid.box = views.NewBoxLayout(kid.orient)
 				kid.probe = &boxProbe{BoxLayout: kid.box}
+				if rg.IntN(2) == 0 {
+					// the application watches the nested layout too, with a handler that reports the
+					// event as handled: watchers are independent observers
+					kid.box.Watch(c20consume{})
+					tr("%s.Watch(handler returning true)", kid.desc())
+				}
 				all = append(all, kid)
 			} else {
 				kid = newLeaf()
@@ -660,6 +666,11 @@ func (n *boxNode) desc() string {
 	}
 	return fmt.Sprintf("box(orient=%d)", n.orient)
 }
+
+// c20consume is an application event handler that claims every event.
+type c20consume struct{}
+
+func (c20consume) HandleEvent(tcell.Event) bool { return true }
 
 // boxProbe wraps a nested BoxLayout so that the harness can see the view the
 // outer layout hands to it.
